@@ -2,7 +2,8 @@
    Spec level: [json_of] / [t2j_spec] of model/T2J.v on the decoded AST of ThriftWire.v (decoder proved in C19).
    The implementation is tied to the spec by Check03 (every output is parsed by the proved parser and compared). *)
 From Coq Require Import ZArith List Bool Lia.
-From DG Require Import ProtoWireRef ThriftWire Json Num Base64 T2J JsonProofs JsonSound NumProofs Base64Proofs T2JProofs.
+From DG Require Import ProtoWireRef ThriftWire Json Num Base64 T2J T2JUnset JsonProofs JsonSound NumProofs Base64Proofs T2JProofs T2JUnsetProofs.
+From DG Require J2T.
 Import ListNotations.
 Local Open Scope Z_scope.
 
@@ -60,6 +61,34 @@ Theorem C03_unknown_disallowed_fails : forall o fs vs,
   exists c, json_of o (DStruct fs) (VStruct vs) = TErr c.
 Proof. exact json_of_unknown_disallowed. Qed.
 Print Assumptions C03_unknown_disallowed_fails.
+
+(* the options that write fields the message does not carry (WriteDefaultField / WriteRequireField): the checker's spec
+   [t2j_specw] is the spec above when both are off; otherwise the members are the present known fields in wire order followed
+   by the written unset fields, each a declared, unmet field of the right requiredness with its alias and zero value *)
+Theorem C03_write_options_off : forall o, o_write_default o = false -> o_write_required o = false ->
+  (forall d v, json_ofw o d v = json_of o d v) /\ (forall d v, t2j_specw o d v = t2j_spec o d v).
+Proof. intros o Hd Hr. split; intros d v; [apply json_ofw_off | apply t2j_specw_off]; assumption. Qed.
+Print Assumptions C03_write_options_off.
+
+Theorem C03_members_with_unset : forall o fs vs ms,
+  json_ofw o (DStruct fs) (VStruct vs) = TOk (EObj ms) ->
+  exists us, unset_members o fs (map fst vs) = inl us /\ map fst ms = declared_keys fs vs ++ map fst us.
+Proof. exact json_ofw_members. Qed.
+Print Assumptions C03_members_with_unset.
+
+Theorem C03_unset_members_sound : forall o l present us, unset_walk o l present = inl us ->
+  forall m, In m us -> exists f, In f l /\ m = (f_key (fst f), zero_of (snd f)) /\ is_present present f = false /\
+    ((f_req (fst f) = 1 /\ o_write_required o = true) \/ (f_req (fst f) = 0 /\ o_write_default o = true)).
+Proof. exact unset_walk_sound. Qed.
+Print Assumptions C03_unset_members_sound.
+
+(* map keys of string AND binary type are written as their raw text (NoBase64Binary or not): that is the key text the inverse
+   converter (model J2T.v, any number policy) reads back to the same thrift string *)
+Theorem C03_string_key_read_back : forall o P s,
+  key_of o (VString s) = Some s /\
+  J2T.key_bytes P J2T.TBinary s = J2T.Ok (encode (VString s)) /\ J2T.key_bytes P J2T.TString s = J2T.Ok (encode (VString s)).
+Proof. intros o P s. repeat split. Qed.
+Print Assumptions C03_string_key_read_back.
 
 (* "never malformed" on the model: the text of every successful model conversion is one complete JSON document *)
 Theorem C03_model_text_wellformed : forall o d v txt, wf v = true -> desc_ok d = true ->
@@ -140,6 +169,129 @@ Example C03_quirk_303_refuted :
   let txt := [123; 34; 120; 34; 58; 34; 50; 53; 53; 34; 125] in
   has_neg_bytev e = true /\ option_map (jmatch e) (json_parse txt) = Some false /\ qmatch false false true e txt = Some [].
 Proof. vm_compute. repeat split; reflexivity. Qed.
+
+(* write options (bits 9, 10): the unmet required field 1 and the unmet default fields 2, 4 are appended in ascending id with
+   their zero values, the unmet optional field 3 is not; a binary-keyed map keeps the raw key text *)
+Example C03_unset_example :
+  fst (t2j_specw (2 ^ 9 + 2 ^ 10) ex_desc (VStruct [(9, VI16 7)])) =
+    TOk (EObj [([100], EDouble 0); ([98; 105; 110], EStr []); ([115], EObj [])]) /\
+  fst (t2j_specw (2 ^ 9) ex_desc (VStruct [(9, VI16 7)])) = TErr E_REQUIRED /\
+  json_ofw 0 (DMap (DString true) (DScalar T_BOOL)) (VMap T_STRING T_BOOL [(VString [255; 34], VBool 1)]) = TOk (EObj [([255; 34], EBool true)]).
+Proof. vm_compute. repeat split; reflexivity. Qed.
+
+(* ================================================================================================================
+   ALGORITHM LEVEL: the byte walk of conv/t2j (model/T2JBytes.v, mirroring doRecurse: field headers, container headers,
+   skipping of unknown fields, incremental text with comma bookkeeping, requires bitmap) refines the spec json_of.
+   Tied to the implementation by check 304 (text of the Gallina walk = text of BinaryConv.Do, double lexemes by dec2f64). *)
+From DG Require Import ThriftWireProofs T2JBytes T2JBytesProofs.
+
+(* for every descriptor, option set without value mapping, well-formed conforming value (unknown fields allowed) within the
+   depth limits (walk fuel n; SkipGo's 1023 for the unknown fields): the walk over the encoding followed by any bytes r
+   returns the canonical text of the spec tree and exactly r, or fails when the spec has no text — for every choice fd of
+   the lexeme written for a finite double (check 304 runs the walk with a marker for fd) *)
+Theorem C03_t2j_walk_refines_spec_gen : forall fd o v d n r, o_value_mapping o = false ->
+  wf v = true -> conforms v d = true -> desc_wf d = true -> (depth v <= n)%nat -> (depth v <= max_skip_depth)%nat ->
+  t2j_walk_gen fd o n d (encode v ++ r) =
+  match spec_text_fd fd (json_of o d v) with Some txt => Some (txt, r) | None => None end.
+Proof. intros fd o v d n r Hvm. exact (walk_refines fd o Hvm v d n r). Qed.
+Print Assumptions C03_t2j_walk_refines_spec_gen.
+
+(* with the spec's lexeme (the exact decimal of the bits): the text is json_print (to_json e), the printer of C03_expected_tree_parses *)
+Theorem C03_t2j_walk_refines_spec : forall o v d n r, o_value_mapping o = false ->
+  wf v = true -> conforms v d = true -> desc_wf d = true -> (depth v <= n)%nat -> (depth v <= max_skip_depth)%nat ->
+  t2j_walk n o d (encode v ++ r) =
+  match json_of o d v with
+  | TOk e => if jexp_finite e then Some (json_print (to_json e), r) else None
+  | _ => None
+  end.
+Proof.
+  intros o v d n r Hvm Hw Hc Hdw Hd Hs. rewrite (walk_refines_exact o v d n r Hvm Hw Hc Hdw Hd Hs).
+  unfold walk_res, spec_text. destruct (json_of o d v) as [e| |]; try reflexivity. destruct (jexp_finite e); reflexivity.
+Qed.
+Print Assumptions C03_t2j_walk_refines_spec.
+
+(* the walk errs EXACTLY when the spec errs (unknown field under DisallowUnknownField, unsupported map key type, missing
+   required field) or the tree holds a non-finite double *)
+Theorem C03_t2j_walk_error_iff : forall o v d n r, o_value_mapping o = false ->
+  wf v = true -> conforms v d = true -> desc_wf d = true -> (depth v <= n)%nat -> (depth v <= max_skip_depth)%nat ->
+  (t2j_walk n o d (encode v ++ r) = None <->
+   (exists c, json_of o d v = TErr c) \/ (exists e, json_of o d v = TOk e /\ jexp_finite e = false)).
+Proof. intros o v d n r. exact (walk_error_iff o v d n r). Qed.
+Print Assumptions C03_t2j_walk_error_iff.
+
+(* never malformed with a nil error, at algorithm level: whatever text the walk returns is parsed by the proved parser to
+   the JSON of the spec tree, and the walk has consumed exactly the encoding *)
+Theorem C03_t2j_walk_output_valid : forall o v d n r txt r', o_value_mapping o = false ->
+  wf v = true -> conforms v d = true -> desc_wf d = true -> desc_ok d = true ->
+  (depth v <= n)%nat -> (depth v <= max_skip_depth)%nat ->
+  t2j_walk n o d (encode v ++ r) = Some (txt, r') ->
+  exists e, json_of o d v = TOk e /\ jexp_finite e = true /\
+            txt = json_print (to_json e) /\ json_parse txt = Some (to_json e) /\ r' = r.
+Proof. intros o v d n r txt r'. exact (walk_output_valid o v d n r txt r'). Qed.
+Print Assumptions C03_t2j_walk_output_valid.
+
+(* Do under the walk's options (no value mapping, no thrift base extraction, no ConvertException): the walk's text is the
+   text of the model conversion t2j_text (the root loop of do is the struct loop of doRecurse) *)
+Theorem C03_t2j_walk_is_model_text : forall o v d n, walk_opts o = true ->
+  wf v = true -> conforms v d = true -> desc_wf d = true -> (depth v <= n)%nat -> (depth v <= max_skip_depth)%nat ->
+  t2j_walk n o d (encode v) = match t2j_text o d v with Some txt => Some (txt, []) | None => None end.
+Proof. exact walk_is_t2j_text. Qed.
+Print Assumptions C03_t2j_walk_is_model_text.
+
+(* the requires bitmap: at STOP a required field's bit is still set iff the field was not met *)
+Theorem C03_requires_bitmap_exact : forall fs ids, bm_missing fs (bm_run fs ids (bm_init fs)) = missing_required fs ids.
+Proof. exact bm_missing_run. Qed.
+Print Assumptions C03_requires_bitmap_exact.
+
+(* non-vacuity: the walk on the example message (unknown field skipped, binary, int-keyed map, nested struct, trailing bytes),
+   the errors, and the comparison of check 304 on a text with another spelling of the double *)
+Example C03_walk_example :
+  desc_wf ex_desc = true /\ (depth ex_val <= 4)%nat /\
+  t2j_walk 4 0 ex_desc (encode ex_val ++ [7; 7]) = option_map (fun t => (t, [7; 7])) (t2j_text 0 ex_desc ex_val) /\
+  t2j_walk 3 8 ex_desc (encode ex_val) = None /\                                            (* DisallowUnknownField *)
+  t2j_walk 3 0 ex_desc (encode (VStruct [(2, VString [])])) = None /\                       (* required field 1 missing *)
+  t2j_walk 3 0 ex_desc (encode (VStruct [(1, VDouble 9218868437227405312)])) = None /\      (* +Inf *)
+  t2j_walk 1 0 (DMap (DScalar T_DOUBLE) (DScalar T_BOOL)) (encode (VMap T_DOUBLE T_BOOL [(VDouble 0, VBool 1)])) = None /\  (* key type *)
+  t2j_walk 1 2 (DMap (DScalar T_BYTE) (DScalar T_BOOL)) (encode (VMap T_BYTE T_BOOL [(VByte (-1), VBool 2)])) =
+    Some ([123; 34; 50; 53; 53; 34; 58; 102; 97; 108; 115; 101; 125], []) /\              (* ByteAsUint8 key 255, bool byte 2 is false *)
+  option_map (fun m => text_agrees (S (length (fst m))) (fst m) [123; 34; 100; 34; 58; 49; 46; 53; 101; 48; 125])
+             (t2j_walk_gen fd_mark 0 3 ex_desc (encode (VStruct [(1, VDouble 4609434218613702656)]))) = Some true.
+Proof. vm_compute. repeat split; reflexivity. Qed.
+
+(* ---- the comparison of check 304 is sound: an accepted implementation text is the walk's text with every double marker
+   replaced by a JSON number lexeme denoting exactly the marked bits, byte-identical everywhere else ---- *)
+From DG Require Import T2JBytesCmp.
+
+Theorem C03_text_agrees_sound : forall ts fuel i, Forall tok_ok ts -> (length (render fd_mark ts) < fuel)%nat ->
+  text_agrees fuel (render fd_mark ts) i = true -> agrees ts i.
+Proof. exact text_agrees_sound. Qed.
+Print Assumptions C03_text_agrees_sound.
+
+Theorem C03_text_agrees_plain : forall b i, Forall (fun c => c <> 1) b -> text_agrees (S (length b)) b i = true -> i = b.
+Proof. exact text_agrees_plain. Qed.
+Print Assumptions C03_text_agrees_plain.
+
+(* ---- check 304 end to end on the model side: a text the comparison accepts against the marker walk of a conforming value
+   is the canonical text of the SPEC tree (tokens jtoks e: brackets, commas, quoted keys, literals, strings) in which every double
+   is spelled by a JSON number lexeme denoting exactly its bits; the walk's own text is the same tokens with exact decimals ---- *)
+From DG Require Import T2JBytesTok.
+
+Theorem C03_check304_sound : forall o v d n r m r' out, o_value_mapping o = false ->
+  wf v = true -> conforms v d = true -> desc_wf d = true -> desc_ok d = true ->
+  (depth v <= n)%nat -> (depth v <= max_skip_depth)%nat ->
+  t2j_walk_gen fd_mark o n d (encode v ++ r) = Some (m, r') ->
+  text_agrees (S (length m)) m out = true ->
+  exists e, json_of o d v = TOk e /\ jexp_finite e = true /\ agrees (jtoks e) out.
+Proof. exact check304_sound. Qed.
+Print Assumptions C03_check304_sound.
+
+Theorem C03_walk_text_tokens : forall o v d n r txt r', o_value_mapping o = false ->
+  wf v = true -> conforms v d = true -> desc_wf d = true ->
+  (depth v <= n)%nat -> (depth v <= max_skip_depth)%nat ->
+  t2j_walk n o d (encode v ++ r) = Some (txt, r') ->
+  exists e, json_of o d v = TOk e /\ txt = render f64_exact_lexeme (jtoks e).
+Proof. exact walk_text_tokens. Qed.
+Print Assumptions C03_walk_text_tokens.
 
 (* ================================================================== (G) string escaping tables from the Go source *)
 (* internal/rt SafeSet / Hex and the ASCII step of the portable quoteString (gen/Gen_rt.v, gen/Gen_jsonportable.v, regenerated from the
